@@ -6,10 +6,13 @@ belief reset).  tie: Gen_NetDriver.v regenerated from PRIVS / _abort_config / on
 from the vendor tables of harness/simdevice.py; correspondence `net-history`: model/NetDriver.v [run_hist]
 evaluated by vm_compute on the same operation histories as the real sync and asyncio drivers over SimDevice
 (device log, belief, device mode, dict keys, outcome after every operation); an independent oracle reads the
-device's own execution log."""
+device's own execution log.  Interrupted operations (harness/c03_int.py): a scripted transport raises (exception,
+ScrapliTimeout, or never answers while the caller's asyncio.wait_for gives up) at every read / write index of one
+operation, the caller catches it and goes on; model: NetDriver.v [run_hist_i] (interruption points), C03_belief_sound."""
 import itertools
 import json
 import os
+import re
 import warnings
 
 from . import common
@@ -43,7 +46,12 @@ def dev_mode_name(m):
 
 def run_history(info, sc):
     """sc: {platform, stack, login, secret, policy, ops}.  Returns the list of observations, one per op
-    (the history stops early only if the device starves the client: a read that would block forever)."""
+    (the history stops early only if the device starves the client: a read that would block forever).
+    An op may carry "fault": {"at": j, "kind": "exc"|"timeout"|"cancel"}: the j-th transport read/write of that
+    operation raises (or, "cancel", never completes and the caller's asyncio.wait_for gives up); the caller
+    catches it and goes on with the next operation."""
+    import asyncio
+    from . import c03_int
     from .simdevice import Runner, SimDevice, Starved, make_driver
 
     plat = sc["platform"]
@@ -52,39 +60,45 @@ def run_history(info, sc):
                     login_mode=sc["login"])
     dev.start()
     obs = []
+    faulty = any(o.get("fault") or o.get("probe") for o in sc["ops"])
     with warnings.catch_warnings():
         warnings.simplefilter("ignore")
         d = make_driver(plat, sc["stack"], dev, tuple(sc.get("policy") or ("whole",)), auth_secondary=sc.get("secret") or "")
+        t = c03_int.install(d, sc["stack"], dev, tuple(sc.get("policy") or ("whole",))) if faulty else None
         r = Runner(sc["stack"])
         try:
             for o in sc["ops"]:
                 n0 = len(dev.log)
                 res = "ok"
                 before = {"belief": d._current_priv_level.name, "mode": dev_mode_name(dev.mode), "generic": bool(d._generic_driver_mode)}
+                fault = o.get("fault")
+                call = (lambda fn, *a, **kw: c03_int.call(r, fault, fn, *a, **kw)) if faulty else r.call
+                if t is not None:
+                    t.begin_op(fault)
                 try:
                     k = o["op"]
                     if k == "open":
-                        r.call(d.open)
+                        call(d.open)
                     elif k == "cmds":
                         if o.get("single") and len(o["lines"]) == 1:
-                            r.call(d.send_command, o["lines"][0])
+                            call(d.send_command, o["lines"][0])
                         else:
-                            r.call(d.send_commands, list(o["lines"]), stop_on_failed=bool(o.get("stop")))
+                            call(d.send_commands, list(o["lines"]), stop_on_failed=bool(o.get("stop")))
                     elif k == "cfgs":
                         kw = {"stop_on_failed": bool(o.get("stop"))}
                         if o.get("priv") is not None:
                             kw["privilege_level"] = o["priv"]
                         if o.get("joined"):
-                            r.call(d.send_config, "\n".join(o["lines"]), **kw)
+                            call(d.send_config, "\n".join(o["lines"]), **kw)
                         else:
-                            r.call(d.send_configs, list(o["lines"]), **kw)
+                            call(d.send_configs, list(o["lines"]), **kw)
                     elif k == "acquire":
-                        r.call(d.acquire_priv, o["level"])
+                        call(d.acquire_priv, o["level"])
                     elif k == "interactive":
                         kw = {}
                         if o.get("priv") is not None:
                             kw["privilege_level"] = o["priv"]
-                        r.call(d.send_interactive, [(l, ANYPROMPT, False) for l in o["lines"]], **kw)
+                        call(d.send_interactive, [(l, ANYPROMPT, False) for l in o["lines"]], **kw)
                     elif k == "register":
                         d.register_configuration_session(session_name=o["name"])
                     elif k == "generic":
@@ -93,12 +107,24 @@ def run_history(info, sc):
                         raise ValueError("unknown op %r" % (o,))
                 except Starved:
                     res = "Starved"
+                except (c03_int.Interrupted, asyncio.TimeoutError, asyncio.CancelledError):
+                    res = "Interrupted"
                 except Exception as e:  # noqa: the class name is the observation
                     res = type(e).__name__
-                obs.append({"result": res, "belief": d._current_priv_level.name, "mode": dev_mode_name(dev.mode),
-                            "generic": bool(d._generic_driver_mode), "keys": list(d.privilege_levels.keys()),
-                            "log": [[dev_mode_name(m), l.decode("latin-1").strip()] for (m, l, _) in dev.log[n0:]],
-                            "before": before, "residue": len(d.transport.residue())})
+                    if t is not None and t.fired:
+                        # whatever class the driver turned the scripted fault into (ScrapliTimeout in an escalation
+                        # with auth becomes ScrapliAuthenticationFailed): the operation was cut, the caller caught it
+                        res = "Interrupted"
+                ob = {"result": res, "belief": d._current_priv_level.name, "mode": dev_mode_name(dev.mode),
+                      "generic": bool(d._generic_driver_mode), "keys": list(d.privilege_levels.keys()),
+                      "log": [[dev_mode_name(m), l.decode("latin-1").strip()] for (m, l, _) in dev.log[n0:]],
+                      "before": before, "residue": len(d.transport.residue())}
+                if t is not None:
+                    t.end_op()
+                    ex, cut = c03_int.exchanges(t.trace)
+                    ob.update({"nio": t.nio, "fired": bool(t.fired), "cut": cut, "pending": len(dev.line) > 0,
+                               "exchanges": [[e["kind"], e["input"]] for e in ex]})
+                obs.append(ob)
                 if res == "Starved":
                     break
         finally:
@@ -135,8 +161,95 @@ def expected_sent(lines, stop):
     return out
 
 
+TOKEN = re.compile(r"(?:show u|bad f)\d+")
+
+
+def has_faults(sc):
+    return any(o.get("fault") for o in sc["ops"])
+
+
+def op_want(pi, o, bef):
+    """(level the user lines of this op must run in or None = no claim, the user lines, navigation target)"""
+    default = [n for n, i in pi["level_ids"].items() if i == pi["default"]][0]
+    k = o["op"]
+    want, ulines = None, []
+    if k == "cmds":
+        ulines = list(o["lines"])
+        want = None if bef["generic"] else default
+    elif k == "cfgs":
+        ulines = list(o["lines"])
+        want = o["priv"] if o.get("priv") is not None else "configuration"
+    elif k == "interactive":
+        ulines = list(o["lines"])
+        want = o["priv"] if o.get("priv") is not None else (None if bef["generic"] else default)
+    tgt = o.get("level") if k == "acquire" else want
+    if k == "open":
+        tgt = default
+    return want, ulines, tgt
+
+
+def oracle_int(info, sc, obs):
+    """histories with interrupted operations (the caller caught the exception and went on).  Read off the device's own
+    log: every user line — whichever later return made the device execute it, alone or glued to a typed-but-unreturned
+    input the cut left in the device's line buffer — ran in the level its operation required; after every operation,
+    cut or not, the driver's belief is DUMMY or the device's mode.  User lines are unique per history, so a line
+    names its operation.  returns None or (op index, what, in_known_region)"""
+    plat = sc["platform"]
+    pi = info[plat]
+    navset = set(pi["line_ids"].keys())
+    owner = {}
+    for i, (o, ob) in enumerate(zip(sc["ops"], obs)):
+        want, ulines, _ = op_want(pi, o, ob["before"])
+        for l in ulines:
+            if l in owner:
+                raise ValueError("user lines must be unique in a history with interruptions: %r" % l)
+            owner[l] = (i, want, o["op"])
+    # pass 1: the device's log, line by line (the property itself); pass 2: the driver's belief after every operation
+    dirty = False      # a cut has left a partial line in the device's buffer: later lines may be glued to it
+    regions = []
+    for i, (o, ob) in enumerate(zip(sc["ops"], obs)):
+        k = o["op"]
+        bef = ob["before"]
+        want, ulines, tgt = op_want(pi, o, bef)
+        # the known finding's region: the operation starts with the belief DUMMY and reads the prompt of a sibling of its
+        # target (shared prompt).  A typed-but-unreturned navigation input left by an earlier cut is executed by this
+        # operation's first return, so the device may get into that sibling only now: every mode it was in counts.
+        seen = [bef["mode"]] + ([m for (m, _) in ob["log"]] + [ob["mode"]] if dirty else [])
+        region = (bef["belief"] == "DUMMY" and tgt is not None and tgt in pi["level_ids"]
+                  and any(m != tgt and shared_prompt(plat, sim_mode(pi, m), sim_mode(pi, tgt)) for m in seen))
+        regions.append(region)
+        for (m, l) in ob["log"]:
+            toks = TOKEN.findall(l)
+            for tk in toks:
+                if tk not in owner:
+                    return i, "unexpected line %r executed in %r" % (l, m), region
+                j, w, kj = owner[tk]
+                if j > i:
+                    return i, "line %r of a later operation executed" % tk, region
+                if w is not None and m != w:
+                    return i, "line %r of %s (op %d) ran in %r, not in %r" % (tk, kj, j, m, w), region
+            if not toks and l not in navset and not dirty:
+                return i, "unexpected line %r executed in %r" % (l, m), region
+        if ob["result"] == "ok" and not dirty:
+            sent = expected_sent(ulines, bool(o.get("stop")))
+            ran = [l for (_, l) in ob["log"] if l in set(ulines)]
+            if ran != sent:
+                return i, "%s: lines that reached the device %r, expected %r" % (k, ran, sent), region
+        if ob["result"] == "Starved":
+            return i, "%s never completed (the device had nothing more to say)" % k, False
+        if ob.get("pending"):
+            dirty = True
+    for i, (o, ob) in enumerate(zip(sc["ops"], obs)):
+        if ob["belief"] != "DUMMY" and ob["belief"] != ob["mode"]:
+            return i, "after %s%s the driver believes %r but the device is in %r" % (
+                o["op"], " (interrupted)" if ob["result"] == "Interrupted" else "", ob["belief"], ob["mode"]), regions[i]
+    return None
+
+
 def oracle(info, sc, obs):
     """returns None or (op index, what, in_known_region)"""
+    if has_faults(sc):
+        return oracle_int(info, sc, obs)
     plat = sc["platform"]
     pi = info[plat]
     default = [n for n, i in pi["level_ids"].items() if i == pi["default"]][0]
@@ -214,7 +327,45 @@ def coq_op(pi, o):
     raise ValueError(o)
 
 
-RES = {"ok": 0, "ScrapliPrivilegeError": 1, "ScrapliValueError": 2, "IndexError": 3}
+RES = {"ok": 0, "ScrapliPrivilegeError": 1, "ScrapliValueError": 2, "IndexError": 3, "Interrupted": 5}
+
+
+def op_line_set(pi, o):
+    """the content lines of the operation's send loop (the model's op_lines)"""
+    if o["op"] == "open":
+        inv = {i: l for l, i in pi["line_ids"].items()}
+        return set(inv[i] for i in pi["open"])
+    return set(o.get("lines") or [])
+
+
+def cut_point(pi, o, ob):
+    """the model's interruption point of an observed cut: None (not cut) | "INav b x" | "ILine n x" | "pending"
+    (a typed-but-unreturned input is left in the device's line buffer: outside the model, oracle-only)"""
+    cut = ob.get("cut")
+    if not ob.get("fired") or cut is None:
+        return None
+    if cut["pending"] or ob.get("pending"):
+        return "pending"
+    if cut["index"] < 0:
+        return "INav 0 false"
+    ex = ob["exchanges"]
+    lines = op_line_set(pi, o)
+    in_loop = lambda e: e[0] == "L" and (e[1] or "").strip() in lines
+    if in_loop(ex[cut["index"]]):
+        return "ILine %d %s" % (sum(1 for e in ex[:cut["index"]] if in_loop(e)), coq_bool(cut["executed"]))
+    return "INav %d %s" % (cut["index"], coq_bool(cut["executed"] and cut["kind"] == "L"))
+
+
+def history_points(info, sc, obs):
+    """per op: the interruption point term or None; the whole value is None if some cut is outside the model"""
+    pi = info[sc["platform"]]
+    pts = []
+    for o, ob in zip(sc["ops"], obs):
+        p = cut_point(pi, o, ob) if o.get("fault") else None
+        if p == "pending":
+            return None
+        pts.append(p)
+    return pts
 
 
 def coq_obs(pi, ob):
@@ -224,10 +375,12 @@ def coq_obs(pi, ob):
                                           coq_list([str(lvl_id(pi, k)) for k in ob["keys"]]), log, RES.get(ob["result"], 9))
 
 
-def case_term(info, sc, obs):
+def case_term(info, sc, obs, points=None):
     pi = info[sc["platform"]]
+    points = points or [None] * len(obs)
     return "(%d, %d, %s, %s)" % (PLATFORMS.index(sc["platform"]), lvl_id(pi, sc["login"]),
-                                 coq_list([coq_op(pi, o) for o in sc["ops"][:len(obs)]]),
+                                 coq_list(["(%s, %s)" % (coq_op(pi, o), "None" if p is None else "Some (%s)" % p)
+                                           for o, p in zip(sc["ops"][:len(obs)], points)]),
                                  coq_list([coq_obs(pi, ob) for ob in obs]))
 
 
@@ -235,7 +388,7 @@ HEADER = """From Coq Require Import List Arith Bool. Import ListNotations.
 From Verif Require Import NetDriver.
 From Gen Require Import Gen_NetDriver.
 Definition obs := (option nat * nat * bool * list nat * list (nat * nat) * nat)%type.
-Definition res_code (r : result) : nat := match r with Ok => 0 | PrivErr => 1 | ValueErr => 2 | IndexErr => 3 | OutOfFuel => 4 end.
+Definition res_code (r : result) : nat := match r with Ok => 0 | PrivErr => 1 | ValueErr => 2 | IndexErr => 3 | OutOfFuel => 4 | Interrupted => 5 end.
 Fixpoint leqb {A} (e : A -> A -> bool) (a b : list A) : bool :=
   match a, b with [] , [] => true | x :: r, y :: s => e x y && leqb e r s | _, _ => false end.
 Definition pair_eqb (a b : nat * nat) := (fst a =? fst b) && (snd a =? snd b).
@@ -245,10 +398,10 @@ Definition obs_eqb (a b : obs) : bool :=
 Definition obs_of (t : state * op * list entry * result * state) : obs :=
   let '(_, _, seg, r, s') := t in
   (belief s', mode s', generic s', reg s', map (fun e => (fst (fst e), snd (fst e))) seg, res_code r).
-Definition chk (c : nat * nat * list op * list obs) : bool :=
+Definition chk (c : nat * nat * list iop * list obs) : bool :=
   let '(pi, m0, ops, o) := c in
   let P := nth pi gen_platforms gen_iosxe in
-  leqb obs_eqb (map obs_of (run_hist P (init P m0) ops)) o.
+  leqb obs_eqb (map obs_of (run_hist_i P (init P m0) ops)) o.
 """
 
 
@@ -340,6 +493,91 @@ def gen_history(rng, pi, plat, malformed=False):
     return ops
 
 
+# ------------------------------------------------------------------------------------------------
+# interrupted operations: one operation of the history is cut at a transport read / write, the caller goes on
+# ------------------------------------------------------------------------------------------------
+VARIANTS = [("sync", "exc"), ("async", "cancel"), ("sync", "timeout"), ("async", "exc"), ("async", "timeout")]
+
+
+def int_bases(info, thorough=True):
+    """(platform, login, head ops, the operation to cut, tail ops): the cut operation needs a privilege change from
+    where the head leaves the connection (or not), the tail sends a command, a config and a command again"""
+    out = []
+    for plat in PLATFORMS:
+        pi = info[plat]
+        default = [n for n, i in pi["level_ids"].items() if i == pi["default"]][0]
+        registered = pi["sessions"][:1]
+        names = [nm for nm in pi["level_ids"] if pi["level_ids"][nm] < pi["nbase"]] + registered
+        cfgs = [c for c in cfg_levels(pi) if c in names]
+        others = [x for x in names if x not in cfgs and x != default]
+        pres = [[]] + [[{"op": "cfgs", "lines": ["show u1"], "priv": c}] for c in [None] + cfgs[1:]]
+        targets = [{"op": "cmds", "lines": ["show u10"], "single": True}, {"op": "cmds", "lines": ["show u10", "show u11"]}]
+        targets += [{"op": "cfgs", "lines": ["show u12", "show u13"], "priv": c} for c in [None] + cfgs[1:]]
+        targets += [{"op": "acquire", "level": lv} for lv in [default] + cfgs[:1] + others[-1:]]
+        if not thorough:      # quick: from the command level and from 'configuration'; one sibling configuration level
+            pres = pres[:2]
+            targets = [t_ for t_ in targets if t_["op"] != "cfgs" or t_["priv"] in (None, cfgs[-1])]
+        tail = [{"op": "cmds", "lines": ["show u20"], "single": True}, {"op": "cfgs", "lines": ["show u21"], "priv": None},
+                {"op": "cmds", "lines": ["show u22"], "single": True}]
+        for login in logins(pi):
+            for pre in pres:
+                for tg in targets:
+                    head = [{"op": "open"}] + [{"op": "register", "name": s_} for s_ in registered] + [dict(o) for o in pre]
+                    out.append((plat, login, head, dict(tg), [dict(o) for o in tail]))
+    return out
+
+
+def probe_nio(info, plat, login, head, tg, policy=("whole",)):
+    """number of transport reads+writes of the operation when nothing is cut"""
+    sc = {"platform": plat, "stack": "sync", "login": login, "secret": None, "policy": list(policy),
+          "ops": [dict(o) for o in head] + [dict(tg, probe=1)]}
+    obs = run_history(info, sc)
+    return obs[-1].get("nio", 0) if len(obs) == len(sc["ops"]) else 0
+
+
+def int_scenarios(info, rng, thorough):
+    """every transport read / write index of the cut operation; quick: one (stack, kind of interruption) per index in
+    rotation, thorough: all five"""
+    out = []
+    n = 0
+    for (plat, login, head, tg, tail) in int_bases(info, thorough):
+        nio = probe_nio(info, plat, login, head, tg)
+        for j in range(nio):
+            variants = VARIANTS if thorough else [VARIANTS[n % len(VARIANTS)]]
+            n += 1
+            for stack, kind in variants:
+                ops = [dict(o) for o in head] + [dict(tg, fault={"at": j, "kind": kind})] + [dict(o) for o in tail]
+                out.append(({"platform": plat, "stack": stack, "login": login, "secret": None, "policy": ["whole"], "ops": ops}, "int"))
+    # random: a random mostly-valid history with unique user lines, one or two operations cut at a random index, any chunking
+    count = 300 if thorough else 40
+    for j in range(count):
+        plat = PLATFORMS[j % len(PLATFORMS)]
+        pi = info[plat]
+        ops = gen_history(rng, pi, plat)
+        u = 0
+        for o in ops:
+            if o.get("lines"):
+                o["lines"] = ["show u%d" % (u + i) for i in range(len(o["lines"]))]
+                u += len(o["lines"])
+                o.pop("stop", None)
+        if u >= 50:
+            continue
+        stack, kind = VARIANTS[rng.randrange(len(VARIANTS))]
+        io_ops = [i for i, o in enumerate(ops) if o["op"] in ("cmds", "cfgs", "acquire") and i > 0]
+        if not io_ops:
+            continue
+        # whole reads only: under a chunking that stops inside the unread residue of a cut operation the next prompt query
+        # can match a STALE prompt (printed before the mode change) and the driver then believes the old level — observed on
+        # the unchanged tree (acquire_priv cut after 'configure session x' was executed, then send_command runs in the
+        # session); channel-level (C01's ground), reported, not explored here
+        pol = ["whole"]
+        for i in rng.sample(io_ops, min(len(io_ops), rng.choice([1, 1, 2]))):
+            ops[i]["fault"] = {"at": rng.randint(0, 14), "kind": kind}
+        out.append(({"platform": plat, "stack": stack, "login": rng.choice(logins(pi)), "secret": None, "policy": pol,
+                     "ops": ops}, "int-random"))
+    return out
+
+
 def logins(pi):
     inv = {i: n for n, i in pi["level_ids"].items()}
     return [inv[i] for i in pi["login"]]
@@ -354,7 +592,9 @@ def history_neutral(sc):
 
 
 def strip_sc(sc):
-    return {k: sc[k] for k in ("platform", "stack", "login", "secret", "policy", "ops")}
+    out = {k: sc[k] for k in ("platform", "stack", "login", "secret", "policy")}
+    out["ops"] = [{k: v for k, v in o.items() if k != "probe"} for o in sc["ops"]]
+    return out
 
 
 # ------------------------------------------------------------------------------------------------
@@ -483,9 +723,15 @@ def run(rep):
                 scenarios.append(({"platform": plat, "stack": stack, "login": login, "secret": secret, "policy": pol,
                                    "ops": [dict(o) for o in ops]}, kind))
 
-    terms, kept = [], []
+    # 4. interrupted operations: every read / write index of one operation, exception / timeout / asyncio cancellation
+    scenarios += int_scenarios(info, rng, thorough)
+
+    terms, kept, term_ix = [], [], []
     dist = {"by_suite": {}, "by_platform": {}, "op_kinds": {}, "results": {}, "history_len": {}, "in_known_region": 0,
-            "non_neutral": 0, "with_abort": 0, "belief_dummy_after_op": 0, "stacks": {"sync": 0, "async": 0}}
+            "non_neutral": 0, "with_abort": 0, "belief_dummy_after_op": 0, "stacks": {"sync": 0, "async": 0},
+            "interrupted": {"cut_ops": 0, "by_kind": {}, "by_point": {"INav": 0, "ILine": 0, "pending(oracle-only)": 0},
+                            "device_executed_cut_line": 0, "belief_dummy_after_cut": 0, "histories_in_model": 0,
+                            "histories_oracle_only": 0, "fault_index_beyond_operation": 0}}
     oracle_fail = []
     known_seen = 0
     for sc, suite in scenarios:
@@ -508,8 +754,33 @@ def run(rep):
         nav = sum(1 for ob in obs for (_, l) in ob["log"] if l in info[sc["platform"]]["line_ids"])
         rep.case((sc["platform"], sc["stack"], sc["login"], sc["secret"], json.dumps(sc["ops"], sort_keys=True)),
                  nontrivial=len(sc["ops"]) >= 3 and nav >= 3)
-        terms.append(case_term(info, sc, obs))
+        points = None
+        if has_faults(sc):
+            di = dist["interrupted"]
+            pi_ = info[sc["platform"]]
+            for o, ob in zip(sc["ops"], obs):
+                if not o.get("fault"):
+                    continue
+                if ob["result"] != "Interrupted":
+                    di["fault_index_beyond_operation"] += 1
+                    continue
+                di["cut_ops"] += 1
+                di["by_kind"][o["fault"]["kind"]] = di["by_kind"].get(o["fault"]["kind"], 0) + 1
+                pt = cut_point(pi_, o, ob) or "?"
+                key = "pending(oracle-only)" if pt == "pending" else pt.split(" ")[0]
+                di["by_point"][key] = di["by_point"].get(key, 0) + 1
+                if ob["cut"] and ob["cut"]["executed"]:
+                    di["device_executed_cut_line"] += 1
+                if ob["belief"] == "DUMMY":
+                    di["belief_dummy_after_cut"] += 1
+            # unread residue of a cut operation + a chunking that stops inside it can make the next prompt query see a stale
+            # prompt (channel level, C01's ground): such histories are judged by the oracle only
+            points = history_points(info, sc, obs) if tuple(sc.get("policy") or ("whole",))[0] == "whole" else None
+            di["histories_in_model" if points is not None else "histories_oracle_only"] += 1
         kept.append((sc, obs, suite))
+        if not has_faults(sc) or points is not None:
+            terms.append(case_term(info, sc, obs, points))
+            term_ix.append(len(kept) - 1)
         fail = oracle(info, sc, obs) if neutral else None
         if fail is not None:
             if fail[2]:
@@ -542,13 +813,20 @@ def run(rep):
     rep.coverage["exhaustive_part"] = ("all histories of length <= %d (IOS-XR: 3) over the reduced alphabet (see rule), every login level, "
                                        "sync+async" % L)
     rep.coverage["refuted"] = ["C03_full (C03_full_refuted)"]
-    rep.coverage["partial"] = ["C03_levels_partial", "C03_belief_sound", "C03_levels_on_core_platforms"]
+    rep.coverage["partial"] = ["C03_levels_partial", "C03_belief_sound", "C03_levels_interrupted", "C03_levels_on_core_platforms"]
+    rep.coverage["refuted"].append("C03_int_without_order (C03_reset_after_refuted): belief soundness under interruption without the order fact")
+    rep.coverage["order_fact"] = {p: info[p].get("reset_first") for p in PLATFORMS}
     rep.coverage["alphabet_sizes"] = {p: len(alphabet(info[p], info[p]["sessions"])) for p in PLATFORMS}
     rep.rule = ("histories = open, then operations of send_command(s) / send_config(s) (with and without failing lines, stop_on_failed, "
                 "every configuration level, unknown level) / acquire_priv / send_interactive(privilege_level) / "
                 "register_configuration_session / generic-mode toggle; enumerated: all sequences of length <= %d over a reduced "
                 "alphabet per platform (x login level x registered sessions x sync/async); random: 2-14 ops, chunking whole/bytes/random, "
                 "with and without an enable secret; malformed: user lines that are transitions of the device (model-vs-code only). "
+                "interrupted (suite int): open [, send_configs at a configuration level], then ONE of send_command / send_commands / "
+                "send_configs (each level) / acquire_priv (command level, configuration, another level) cut at EVERY transport "
+                "read/write index by a catchable exception, a ScrapliTimeout or asyncio cancellation (wait_for), then send_command, "
+                "send_configs, send_command on the same connection (quick: one of the five stack x kind variants per index in rotation, "
+                "thorough: all); int-random: random histories with unique lines, 1-2 operations cut at a random index (whole reads). "
                 "non-trivial = at least 3 operations and at least 3 navigation/abort lines executed by the device; "
                 "distinct = (platform, stack, login, secret, operation list)" % L)
     for sc, obs, suite in kept[:1] + kept[len(kept) // 2: len(kept) // 2 + 1] + kept[-1:]:
@@ -559,6 +837,7 @@ def run(rep):
         rep.notes.append(log)
     elif bad:
         failing = set(ix for ix, _ in oracle_fail)
+        bad = [term_ix[b] for b in bad]
         for ix in bad[:5]:
             sc, obs, suite = kept[ix]
             rep.notes.append("model/implementation disagreement (%s): %s -> %s" % (
@@ -624,6 +903,14 @@ MANIFEST = {
             "that reset the belief (generic-mode on, or registering a sibling session) only while the device's prompt is unambiguous. The full "
             "statement is REFUTED (C03_full_refuted, vm_compute witness on the generated IOS-XR and Junos tables): config · toggle generic mode on/off · "
             "send_configs(privilege_level='configuration_exclusive') runs in shared configuration; replayed on the real drivers = known finding. "
+            "Interrupted operations: C03_belief_sound and C03_levels_interrupted hold for every history in which any operation may be cut (the "
+            "caller catches a transport error / a timeout that leaves the connection usable / asyncio cancellation and goes on) at every channel "
+            "call of its navigation (prompt query, escalate / deescalate line; the cut line executed by the device or not) or at every line of its "
+            "send loop: afterwards the belief is DUMMY or the device's mode and the user lines that reached the device ran in the required level. "
+            "The theorems rest on the ORDER fact p_reset_first, generated from the ast of _process_acquire_priv and of sync+async acquire_priv (the "
+            "reset to DUMMY precedes the _escalate/_deescalate call) and checked by platform_check; with the other order the statement is refuted "
+            "(C03_reset_after_refuted). Interrupted histories are run on both real drivers (every read/write index of the cut operation) and "
+            "compared with the model; the device-log oracle attributes every executed user line to its operation. "
             "partial: the runtime (real sync+asyncio drivers over SimDevice) is observed, not proved: the model is tied to it by the net-history "
             "correspondence (all histories of length <= 2 (IOS-XR and thorough: 3) over a reduced alphabet x platforms x login levels x stacks, plus random "
             "and malformed histories) and an independent oracle reads the device's own execution log.",
@@ -632,6 +919,14 @@ MANIFEST = {
             "not_contains list — the classification fact C05 proves is assumed here and exercised only on SimDevice's prompts); the vendor device "
             "tables of harness/simdevice.py as the environment (compliant device; password dialogue abstracted to one transition); at most two "
             "registered sessions in the computed per-platform check; channel-level framing (C01) is outside this model. Empty command/config lists "
-            "are not generated (C13's IndexError finding).",
-    "technique": "Coq: invariant over all histories + per-platform finite check by vm_compute (reflection); vm_compute correspondence of the model against both real drivers; device-log oracle",
+            "are not generated (C13's IndexError finding). Interruption: the model has points in the navigation and the send loop only; "
+            "the platform _abort_config step (abort line written, belief assigned after it) has no interruption points and the cut operation of the "
+            "generated histories never has stop_on_failed, send_interactive is never the cut operation; cuts that leave a typed-but-unreturned input "
+            "in the device's line buffer (between the write of an input and of its return) are ORACLE-ONLY; interrupted histories are generated "
+            "with whole reads only: under finer chunking a prompt query can stop inside the unread residue of the cut operation and take a stale "
+            "prompt for the current one (seen on the unchanged tree, channel level, not explored); histories that are not in the model are "
+            "oracle-only (not in the model: the device-log oracle and the belief observer judge them); interrupted histories use no enable secret "
+            "(a cut inside the password dialogue starves the next prompt query); residue left unread by a cut operation is the real channel's "
+            "business (C01) and enters only through the runs.",
+    "technique": "Coq: invariant over all histories (with interruption points) + per-platform finite check by vm_compute (reflection) + ast order fact; vm_compute correspondence of the model against both real drivers; fault-injecting scripted transports; device-log oracle",
 }
